@@ -303,8 +303,31 @@ def run(ctx: Ctx):
     ok = bool(ms) and norm(ms[0].value) == "int(minDuration / self.resolution)"
     ctx.ob("R17.5", f"{ci.qual}: {norm(ms[0]) if ms else '-'}", ci, ok, "minimum duration converted to slots" if ok else
            "minimum duration is not converted with the table resolution", key="R17.5|collectIntervals|min slots")
+    # the project's slot tables are (re)built from the CURRENT start, end and resolution whenever initScoreboards runs
+    isb = repo.func("Project.initScoreboards")
+    gi = cfg_of(isb)
+
+    def builds(n):
+        a = n.ast
+        return n.kind == "stmt" and isinstance(a, ast.Assign) and norm(a.targets[0]) == "self.scoreboard" and isinstance(a.value, ast.Call) \
+            and norm(a.value.func) == "Scoreboard" and any("'end'" in norm(x).replace('"', "'") for x in a.value.args)
+
+    def reuse_compares_end(n):
+        if n.kind != "if" or n.ast is None:
+            return False
+        t = norm(n.ast.test if isinstance(n.ast, ast.If) else n.ast).replace('"', "'")
+        return "endDate" in t and "'end'" in t
+    size_user = [n for n in gi.nodes if n.ast is not None and n.kind == "stmt" and "scoreboardSize()" in norm(n.ast)]
+    if not size_user or not any(builds(n) for n in gi.nodes):
+        raise AnchorMissing("Project.initScoreboards: table construction / size use not found")
+    ok = all(gi.all_paths_pass(gi.entry, u, lambda n: builds(n) or reuse_compares_end(n)) for u in size_user)
+    ctx.ob("R17.2", f"{isb.qual}: slot tables rebuilt from the current window on every path", isb, ok,
+           "Scoreboard(start, end, resolution) is constructed (or a reuse test compares the end as well) before the table is filled" if ok else
+           "an existing table can be reused without comparing its end with the current project end: after the end has moved the table "
+           "no longer covers [start, end]",
+           key="R17.2|Project.initScoreboards|rebuilt")
     ctx.floor("R17.1", 9)
-    ctx.floor("R17.2", 5)
+    ctx.floor("R17.2", 6)
     ctx.floor("R17.3", 2)
     ctx.floor("R17.4", 5)
     ctx.floor("R17.5", 10)
